@@ -51,6 +51,12 @@ fn slots(spec: &CmdSpec, prefix: &str, out: &mut Vec<String>) {
     ] {
         out.push(format!("{prefix}{s}"));
     }
+    if prefix.is_empty() {
+        // metadata of the page itself, set on the `Man` value
+        for s in ["man.title", "man.section", "man.date", "man.source", "man.manual"] {
+            out.push(s.to_owned());
+        }
+    }
     for (i, a) in spec.args.iter().enumerate() {
         for s in ["help", "long_help", "value_name", "help_heading", "default", "env_name"] {
             out.push(format!("{prefix}arg{i}.{s}"));
@@ -187,8 +193,24 @@ fn control_requests(page: &str) -> Vec<String> {
 }
 
 fn render(cmd: &clap::Command) -> Result<String, PanicInfo> {
+    render_meta(cmd, &[])
+}
+
+/// `meta`: page metadata set through the builder methods of `Man` after construction (`man.title`, `man.section`,
+/// `man.date`, `man.source`, `man.manual`)
+fn render_meta(cmd: &clap::Command, meta: &[(String, String)]) -> Result<String, PanicInfo> {
     catch(|| {
-        let man = clap_mangen::Man::new(cmd.clone());
+        let mut man = clap_mangen::Man::new(cmd.clone());
+        for (k, v) in meta {
+            man = match k.as_str() {
+                "man.title" => man.title(v.clone()),
+                "man.section" => man.section(v.clone()),
+                "man.date" => man.date(v.clone()),
+                "man.source" => man.source(v.clone()),
+                "man.manual" => man.manual(v.clone()),
+                _ => man,
+            };
+        }
         let mut buf = Vec::new();
         man.render(&mut buf).expect("writing to a Vec cannot fail");
         // individual sections must render too
@@ -403,7 +425,14 @@ pub fn run_man(case: &ManCase, ctx: &mut Ctx) -> Verdict {
             (Built::Panic(p), _) | (_, Built::Panic(p)) => return Verdict::Fail(Failure::from_panic(&p)),
             _ => return Verdict::Discard("invalid-config-after-substitution"),
         };
-        let pa = match render(&a_cmd) {
+        let meta = |subst: &[(String, String)], twin: bool| -> Vec<(String, String)> {
+            subst
+                .iter()
+                .filter(|(k, _)| k.starts_with("man."))
+                .map(|(k, v)| (k.clone(), if twin { same_shape(v) } else { v.clone() }))
+                .collect()
+        };
+        let pa = match render_meta(&a_cmd, &meta(&case.subst, false)) {
             Ok(p) => p,
             Err(p) => {
                 return Verdict::fail(
@@ -412,7 +441,7 @@ pub fn run_man(case: &ManCase, ctx: &mut Ctx) -> Verdict {
                 )
             }
         };
-        let pt = match render(&t_cmd) {
+        let pt = match render_meta(&t_cmd, &meta(&case.subst, true)) {
             Ok(p) => p,
             Err(p) => return Verdict::Fail(Failure::from_panic(&p)),
         };
@@ -423,7 +452,8 @@ pub fn run_man(case: &ManCase, ctx: &mut Ctx) -> Verdict {
             for s in &case.subst {
                 let (a1, t1) = twin_of(&case.spec, std::slice::from_ref(s));
                 if let (Built::Ok(a1), Built::Ok(t1)) = (build_checked(&a1), build_checked(&t1)) {
-                    if let (Ok(x), Ok(y)) = (render(&a1), render(&t1)) {
+                    let one = std::slice::from_ref(s);
+                    if let (Ok(x), Ok(y)) = (render_meta(&a1, &meta(one, false)), render_meta(&t1, &meta(one, true))) {
                         if control_requests(&x) != control_requests(&y) {
                             culprits.push(slot_class(&s.0));
                         }
